@@ -26,6 +26,7 @@ struct Case {
     bool vsignal = false;
     u32 vaddr = 0;
     bool vcs = false;
+    bool sticky = false; // most registers shared with the other cases of its group of 8
 };
 
 struct Gen {
@@ -63,6 +64,12 @@ struct Gen {
         o.any_pc = g.chance(1, 2);
         o.random_ints = g.chance(1, 4);
         k.st = RandomState(g, o);
+        if (g.chance(1, 2)) { // half of the cases: most registers as in the other cases of this group of 8 (see MixSticky)
+            Rng gg = ctx.case_rng(c / 8, 0x6157);
+            CaseState group = RandomState(gg);
+            MixSticky(g, k.st, group);
+            k.sticky = true;
+        }
         if (k.st.v[idx_pc] > 0x3FFFD)
             k.st.v[idx_pc] = 0x3FFFD;
         if (k.st.v[idx_ipv]) {
@@ -248,7 +255,8 @@ int tree_side(Ctx& ctx) {
             ctx.note("reference stream ended early");
             return 3;
         }
-        if (!ctx.selected(c))
+        // a replayed case runs after the earlier cases of its group of 8 (they are its history on this interpreter)
+        if (!ctx.selected(c) && !(ctx.only_case >= 0 && c / 8 == (u64)ctx.only_case / 8 && c < (u64)ctx.only_case))
             continue;
         int ref_outcome = rec[0];
         u64 ref_digest;
@@ -262,6 +270,8 @@ int tree_side(Ctx& ctx) {
         }
         ex.run(k);
         ctx.count("compared");
+        if (k.sticky)
+            ctx.count("compared_with_group_state");
         ctx.seen("nt", hname);
         ctx.seen("opcodes_hi", fmt("%02x", k.opcode >> 8));
         if (ex.rr.outcome == OK && ex.digest == ref_digest) {
